@@ -15,6 +15,7 @@ class Endpoints:
     sport: int
     cisn: int = 1000
     sisn: int = 5000
+    fin: bool = False         # each direction's last data segment also carries FIN (response / close_notify and FIN in one segment, as real stacks send them)
     tcpopts: bool = False     # segments carry TCP options as real stacks send them (timestamps on every segment, MSS/SACK-permitted/window scale on SYN, SACK blocks on some ACKs)
 
     @property
@@ -88,7 +89,7 @@ def random_ep(rng, v6=None, sport=443, odd=0.3):
         sisn = cisn                                             # equal initial sequence numbers
     else:                                                       # half the sequence space apart, give or take a stream length
         sisn = (cisn + (1 << 31) + rng.choice([-1, 1]) * rng.choice([0, 1, 2, 100, 700, 3000, 20000, rng.randrange(0, 70000)])) % (1 << 32)
-    return Endpoints(cm, sm, ci, si, cport, sport, cisn, sisn, tcpopts=bool(odd) and (cport ^ cisn) % 3 != 0)
+    return Endpoints(cm, sm, ci, si, cport, sport, cisn, sisn, tcpopts=bool(odd) and (cport ^ cisn) % 3 != 0, fin=bool(odd) and (cport * 7 + cisn) % 4 == 0)
 
 
 @dataclass
@@ -141,6 +142,12 @@ def segments(events, ep: Endpoints, cutter, with_handshake=True, max_burst=None)
             off += n
             woff[d] += n
             seq[d] += n
+    if ep.fin:
+        for d in "cs":
+            last = [i for i, s_ in enumerate(pk) if s_.dir == d and s_.payload]
+            if last:
+                s_ = pk[last[-1]]
+                pk[last[-1]] = Seg(s_.dir, s_.seq, s_.ack, s_.flags | 0x01, s_.payload, s_.woff, s_.burst)
     return pk
 
 
